@@ -33,6 +33,14 @@ SCENARIOS = [
     Scenario("isolated-fixed-vertex", BASE_V + ["PoseR3"], BASE_E, fixed=[3], fix_first_pose=True),
     Scenario("isolated-fixed-vertex-first", ["PoseR3"] + BASE_V, [tuple(k + 1 for k in e) for e in BASE_E], fix_first_pose=True),
     Scenario("parallel-only", ["PoseSE2", "PoseSE2"], [(0, 1), (0, 1), (1, 0)], fix_first_pose=True),
+    Scenario("parallel-free", ["PoseSE2", "PoseR2", "PoseSE2"], [(0, 2), (0, 2), (2, 0), (2, 0), (0, 2), (1, 0)]),
+]
+
+# (first call, second call on the SAME graph object): nothing of the first assembly may survive into the second
+SEQUENCES = [
+    (Scenario("seq-free", BASE_V, BASE_E), Scenario("seq-then-fixed-middle", BASE_V, BASE_E, fixed=[1])),
+    (Scenario("seq-fixed-two", BASE_V, BASE_E, fixed=[0, 2]), Scenario("seq-then-free", BASE_V, BASE_E)),
+    (Scenario("seq-fix-first", BASE_V, BASE_E, fix_first_pose=True), Scenario("seq-then-also-last", BASE_V, BASE_E, fixed=[0, 2])),
 ]
 
 
@@ -60,85 +68,108 @@ def prelude_statements(pkg):
     return fn, out
 
 
+def _build(it, scn):
+    dims = [CDIM[t] for t in scn.vtypes]
+    poses = [sym_pose(t, "x%d" % k) for k, t in enumerate(scn.vtypes)]
+    verts = [it.construct("Vertex", [Poly.const(100 + 7 * k), poses[k]], dict(fixed=(k in scn.fixed))) for k in range(len(dims))]
+    edges, spec = [], []
+    m = scn.err_len
+    for ei, vs in enumerate(scn.edges):
+        err = sym_vec("e%d" % ei, m)
+        W = sym_symmetric("W%d" % ei, m)
+        Js = [sym_mat("J%d_%d" % (ei, k), m, dims[v]) for k, v in enumerate(vs)]
+        e = Obj("BaseEdge", information=W, estimate=None, vertex_ids=[Poly.const(100 + 7 * v) for v in vs], vertices=None)
+        e.stubs["calc_error"] = (lambda err=err: err)
+        e.stubs["calc_jacobians"] = (lambda Js=Js: list(Js))
+        e.stubs["is_valid"] = lambda: True
+        edges.append(e)
+        spec.append((vs, err, W, Js))
+    g = it.construct("Graph", [edges, verts])
+    return g, verts, dims, spec
+
+
+def _assemble_and_compare(it, g, verts, dims, spec, scn, label=""):
+    pkg = it.pkg
+    ofn, prelude = prelude_statements(pkg)
+    it.fn_stack.append(ofn)
+    try:
+        it.block(prelude, {"self": g, "fix_first_pose": scn.ffp, "__class__": None})
+    finally:
+        it.fn_stack.pop()
+    fixed = set(scn.fixed) | ({0} if scn.ffp else set())
+    for k, v in enumerate(verts):
+        if bool(v.fields.get("fixed")) != (k in fixed):
+            raise ObFail("%safter the fix_first_pose prelude vertex %d has fixed=%r, expected %r" % (label, k, v.fields.get("fixed"), k in fixed))
+    it.call_method(g, "_calc_chi2_gradient_hessian", [])
+    b, H, chi2 = g.fields.get("_gradient"), g.fields.get("_hessian"), g.fields.get("_chi2")
+    offs = [sum(dims[:k]) for k in range(len(dims))]
+    n = sum(dims)
+    # ---- the checker's reference assembly
+    eb = [Poly() for _ in range(n)]
+    eH = [[Poly() for _ in range(n)] for _ in range(n)]
+    echi = Poly()
+    for vs, err, W, Js in spec:
+        eW = it.dot(err, W, None)
+        echi = echi + it.dot(eW, err, None)
+        for k, v in enumerate(vs):
+            if v in fixed:
+                continue
+            blk = it.dot(eW, Js[k], None)
+            for a in range(dims[v]):
+                eb[offs[v] + a] = eb[offs[v] + a] + blk.data[a]
+        for i, vi in enumerate(vs):
+            for j, vj in enumerate(vs):
+                if vi in fixed or vj in fixed:
+                    continue
+                blk = it.dot(it.dot(Js[i].T(), W, None), Js[j], None)
+                for a in range(dims[vi]):
+                    for c in range(dims[vj]):
+                        eH[offs[vi] + a][offs[vj] + c] = eH[offs[vi] + a][offs[vj] + c] + blk.data[a][c]
+    for v in fixed:
+        for a in range(dims[v]):
+            eH[offs[v] + a][offs[v] + a] = Poly.const(1)
+    # ---- compare
+    if not isinstance(chi2, Poly) or chi2 != echi:
+        raise ObFail("%saccumulated chi^2 is not the sum of the edges' e^T W e" % label)
+    if not isinstance(b, Arr) or b.shape != (n,):
+        raise ObFail("%sgradient has shape %s, expected (%d,)" % (label, getattr(b, "shape", None), n))
+    if not isinstance(H, Arr) or H.shape != (n, n):
+        raise ObFail("%sHessian has shape %s, expected (%d, %d)" % (label, getattr(H, "shape", None), n, n))
+
+    def owner(idx):
+        for k in range(len(dims)):
+            if offs[k] <= idx < offs[k] + dims[k]:
+                return k
+    for r in range(n):
+        if b.data[r] != eb[r]:
+            k = owner(r)
+            raise ObFail("%sgradient block of vertex %d (%s) differs from sum_e J^T W e: entry %d, code - expected = %s" % (
+                label, k, "fixed" if k in fixed else "free", r, (b.data[r] - eb[r]).short(160)))
+    for r in range(n):
+        for c in range(n):
+            if H.data[r][c] != eH[r][c]:
+                kr, kc = owner(r), owner(c)
+                raise ObFail("%sHessian block (vertex %d%s, vertex %d%s) differs from the reference assembly: entry [%d,%d], code - expected = %s" % (
+                    label, kr, " fixed" if kr in fixed else "", kc, " fixed" if kc in fixed else "", r, c, (H.data[r][c] - eH[r][c]).short(160)))
+    return dict(scenario=scn.name, vertices=len(dims), edges=len(scn.edges), fixed=sorted(fixed), n=n)
+
+
 def assembly_obligation(scn):
     def fn(it):
-        pkg = it.pkg
-        dims = [CDIM[t] for t in scn.vtypes]
-        poses = [sym_pose(t, "x%d" % k) for k, t in enumerate(scn.vtypes)]
-        verts = [it.construct("Vertex", [Poly.const(100 + 7 * k), poses[k]], dict(fixed=(k in scn.fixed))) for k in range(len(dims))]
-        edges, spec = [], []
-        m = scn.err_len
-        for ei, vs in enumerate(scn.edges):
-            err = sym_vec("e%d" % ei, m)
-            W = sym_symmetric("W%d" % ei, m)
-            Js = [sym_mat("J%d_%d" % (ei, k), m, dims[v]) for k, v in enumerate(vs)]
-            e = Obj("BaseEdge", information=W, estimate=None, vertex_ids=[Poly.const(100 + 7 * v) for v in vs], vertices=None)
-            e.stubs["calc_error"] = (lambda err=err: err)
-            e.stubs["calc_jacobians"] = (lambda Js=Js: list(Js))
-            e.stubs["is_valid"] = lambda: True
-            edges.append(e)
-            spec.append((vs, err, W, Js))
-        g = it.construct("Graph", [edges, verts])
-        ofn, prelude = prelude_statements(pkg)
-        it.fn_stack.append(ofn)
-        try:
-            it.block(prelude, {"self": g, "fix_first_pose": scn.ffp, "__class__": None})
-        finally:
-            it.fn_stack.pop()
-        fixed = set(scn.fixed) | ({0} if scn.ffp else set())
-        for k, v in enumerate(verts):
-            if bool(v.fields.get("fixed")) != (k in fixed):
-                raise ObFail("after the fix_first_pose prelude vertex %d has fixed=%r, expected %r" % (k, v.fields.get("fixed"), k in fixed))
-        it.call_method(g, "_calc_chi2_gradient_hessian", [])
-        b, H, chi2 = g.fields.get("_gradient"), g.fields.get("_hessian"), g.fields.get("_chi2")
-        offs = [sum(dims[:k]) for k in range(len(dims))]
-        n = sum(dims)
-        # ---- the checker's reference assembly
-        eb = [Poly() for _ in range(n)]
-        eH = [[Poly() for _ in range(n)] for _ in range(n)]
-        echi = Poly()
-        for vs, err, W, Js in spec:
-            eW = it.dot(err, W, None)
-            echi = echi + it.dot(eW, err, None)
-            for k, v in enumerate(vs):
-                if v in fixed:
-                    continue
-                blk = it.dot(eW, Js[k], None)
-                for a in range(dims[v]):
-                    eb[offs[v] + a] = eb[offs[v] + a] + blk.data[a]
-            for i, vi in enumerate(vs):
-                for j, vj in enumerate(vs):
-                    if vi in fixed or vj in fixed:
-                        continue
-                    blk = it.dot(it.dot(Js[i].T(), W, None), Js[j], None)
-                    for a in range(dims[vi]):
-                        for c in range(dims[vj]):
-                            eH[offs[vi] + a][offs[vj] + c] = eH[offs[vi] + a][offs[vj] + c] + blk.data[a][c]
-        for v in fixed:
-            for a in range(dims[v]):
-                eH[offs[v] + a][offs[v] + a] = Poly.const(1)
-        # ---- compare
-        if not isinstance(chi2, Poly) or chi2 != echi:
-            raise ObFail("accumulated chi^2 is not the sum of the edges' e^T W e")
-        if not isinstance(b, Arr) or b.shape != (n,):
-            raise ObFail("gradient has shape %s, expected (%d,)" % (getattr(b, "shape", None), n))
-        if not isinstance(H, Arr) or H.shape != (n, n):
-            raise ObFail("Hessian has shape %s, expected (%d, %d)" % (getattr(H, "shape", None), n, n))
+        g, verts, dims, spec = _build(it, scn)
+        return _assemble_and_compare(it, g, verts, dims, spec, scn)
+    return lambda pkg: run_obligation(pkg, fn)
 
-        def owner(idx):
-            for k in range(len(dims)):
-                if offs[k] <= idx < offs[k] + dims[k]:
-                    return k
-        for r in range(n):
-            if b.data[r] != eb[r]:
-                k = owner(r)
-                raise ObFail("gradient block of vertex %d (%s) differs from sum_e J^T W e: entry %d, code - expected = %s" % (
-                    k, "fixed" if k in fixed else "free", r, (b.data[r] - eb[r]).short(160)))
-        for r in range(n):
-            for c in range(n):
-                if H.data[r][c] != eH[r][c]:
-                    kr, kc = owner(r), owner(c)
-                    raise ObFail("Hessian block (vertex %d%s, vertex %d%s) differs from the reference assembly: entry [%d,%d], code - expected = %s" % (
-                        kr, " fixed" if kr in fixed else "", kc, " fixed" if kc in fixed else "", r, c, (H.data[r][c] - eH[r][c]).short(160)))
-        return dict(scenario=scn.name, vertices=len(dims), edges=len(scn.edges), fixed=sorted(fixed), n=n)
+
+def sequence_obligation(first, second):
+    """Assemble twice on the same graph object with different fixed sets (as two consecutive optimize() calls would)."""
+    def fn(it):
+        g, verts, dims, spec = _build(it, first)
+        _assemble_and_compare(it, g, verts, dims, spec, first, label="first call: ")
+        for k, v in enumerate(verts):
+            v.fields["fixed"] = k in second.fixed      # the user changes the fixed flags between two calls
+        st = _assemble_and_compare(it, g, verts, dims, spec, second,
+                                   label="second call on the same graph (fixed set changed from %s to %s): " % (sorted(first.fixed | ({0} if first.ffp else set())), sorted(second.fixed)))
+        st["scenario"] = "%s -> %s" % (first.name, second.name)
+        return st
     return lambda pkg: run_obligation(pkg, fn)
